@@ -3,6 +3,7 @@ import AsyncFix.Model.Codec.Decode
 import AsyncFix.Model.Codec.Encode
 import AsyncFix.Model.Codec.Reader
 import AsyncFix.Generated.Proto
+import AsyncFix.Lemmas.CodecSpec
 /-!
 `codec.*` commands.  Containers travel as comma separated prefix text:
   cont := `I,<k>,node…`      node := `L,<tag>,<val>` | `E,<tag>` | `G,<tag>,<n>,cont…`
@@ -88,6 +89,11 @@ def handle (st : St) (cmd : String) (args : List String) : St × String :=
   | "decode", [raw] =>
     match Driver.tokBytes raw with
     | some b => (st, showDec (decode beginString tbl b))
+    | none => (st, "bad-op")
+  | "wf", [c] =>
+    -- the hypothesis of the round-trip theorem (C01), evaluated on a concrete container
+    match tokCont c with
+    | some c => (st, if wfTop tbl c then "wf" else "not-wf")
     | none => (st, "bad-op")
   | "pyint", [s] =>
     match Driver.tokBytes s with
